@@ -166,6 +166,42 @@ def run(tier, seed, replay=None):
                 fail('split sum', dict(args, at=kn, direction=d), '%ss of the pieces sum to %r, whole %r' % (mname[pd], tot, ref))
         except Exception as e:  # noqa
             fail('split sum', dict(args, at=kn, direction=d), 'raised %s' % type(e).__name__)
+        # Curve.length(t0, t1): sub-intervals add up, agree with the length of the split pieces, and do not depend on
+        # where the parametric origin lies (the domain is moved so that 0 is the start, an interior point or a limit)
+        if pd == 1:
+            try:
+                count('length(t0,t1)')
+                width = float(e_ - s_)
+                for shift_to in ('start0', 'inside0', 'as_is'):
+                    oc = o.clone()
+                    if shift_to == 'start0':
+                        oc.reparam((0.0, width))
+                    elif shift_to == 'inside0':
+                        oc.reparam((-0.25 * width, 0.75 * width))
+                    a0, b0 = oc.start(0), oc.end(0)
+                    mid = 0.0 if shift_to == 'inside0' else a0 + (b0 - a0) * rng.randint(1, 15) / 16.0
+                    whole = oc.length()
+                    l_ab = oc.length(a0, b0)
+                    l_am = oc.length(a0, mid)
+                    l_mb = oc.length(mid, b0)
+                    l_m_ = oc.length(t0=mid)
+                    l__m = oc.length(t1=mid)
+                    pcs = oc.clone().split(mid)
+                    ref_am, ref_mb = pcs[0].length(), pcs[1].length()
+                    lim = 1e-9 * max(1.0, abs(whole))
+                    msgs = []
+                    if abs(l_ab - whole) > lim:
+                        msgs.append('length(start,end)=%r but length()=%r' % (l_ab, whole))
+                    if abs(l_am - ref_am) > lim or abs(l__m - ref_am) > lim:
+                        msgs.append('length(start,%r)=%r / length(t1=%r)=%r but the split piece has length %r' % (mid, l_am, mid, l__m, ref_am))
+                    if abs(l_mb - ref_mb) > lim or abs(l_m_ - ref_mb) > lim:
+                        msgs.append('length(%r,end)=%r / length(t0=%r)=%r but the split piece has length %r' % (mid, l_mb, mid, l_m_, ref_mb))
+                    if abs(oc.length(mid, mid)) > lim:
+                        msgs.append('length(%r,%r) of an empty interval is %r' % (mid, mid, oc.length(mid, mid)))
+                    for m_ in msgs:
+                        fail('length(t0,t1)', dict(args, domain=[a0, b0], mid=mid), m_)
+            except Exception as e:  # noqa
+                fail('length(t0,t1)', args, 'raised %s' % type(e).__name__)
         # rigid motion: exactly invariant; uniform scaling: proper power; centre follows the motion
         if spec['dim'] == 3 or pd < 3:
             ang = rng.uniform(-3, 3)
